@@ -1743,7 +1743,10 @@ process(PseudoTcpSocket *self, Segment *seg)
         DEBUG (PSEUDO_TCP_DEBUG_NORMAL, "exit recovery cwnd=%d ssthresh=%d nInFlight=%d mss: %d", priv->cwnd, priv->ssthresh, nInFlight, priv->mss);
         priv->fast_recovery = FALSE;
         priv->dup_acks = 0;
-      } else {
+      } else if (!is_fin_ack) {
+        /* (Once our FIN is acknowledged everything before it is too: there is
+         * nothing left to retransmit, and the head of slist is the FIN segment
+         * itself, which lies before snd_una.) */
         int transmit_status;
 
         DEBUG (PSEUDO_TCP_DEBUG_NORMAL, "recovery retransmit");
